@@ -1,7 +1,7 @@
 ------------------------------- MODULE MC_C14 -------------------------------
 EXTENDS JasmSession, JasmPattern, TLC
 \* the rule documents of the C14 universe differ in exactly the state-bearing features
-RuleIds == {"plain", "mfm", "ofm", "range", "sections", "style", "caps", "macros", "xmacros"}
+RuleIds == {"plain", "mfm", "ofm", "range", "sections", "style", "caps", "macros", "xmacros", "xlib_a", "xlib_b"}
 CfgTable == [r \in RuleIds |->
     CASE r = "mfm"      -> RuleCfg("T", "-", "-", <<>>, <<>>)
       [] r = "ofm"      -> RuleCfg("F", "T", "-", <<>>, <<>>)
@@ -23,6 +23,8 @@ PatternOf(r) ==
       [] r = "macros"   -> PAnd(<<I("@m")>>)
       [] OTHER          -> PAnd(<<I("@m")>>)                         \* xmacros: @m comes from an extra macro file
 \* string macros: <<name, body>>
+\* xlib_a / xlib_b: the same extra macro file (a library macro @lib whose body uses @inner), while each rule
+\* file gives @inner its own meaning -- the harness writes these two documents (see harness/props/c14.py)
 MacrosOf(r)  == IF r = "macros" THEN << <<"@m", "push">> >> ELSE <<>>
 XMacrosOf(r) == IF r = "xmacros" THEN << << <<"@m", "pop">> >> >> ELSE <<>>    \* one extra file
 Listing == << Ins("401000", "push", <<"%rbx">>), Ins("401001", "call", <<"401008">>), Ins("401006", "pop", <<"%rbx">>),
@@ -30,7 +32,7 @@ Listing == << Ins("401000", "push", <<"%rbx">>), Ins("401001", "call", <<"401008
 \* which inputs an operation on rule r is run on ("text": the listing above; "bin": an object file
 \* with an executable .text and an executable .foo section, built by the harness)
 InputsOf(r) == IF r \in {"sections", "plain", "style"} THEN {"text", "bin"} ELSE {"text"}
-RuleSeq == <<"plain", "mfm", "ofm", "range", "sections", "style", "caps", "macros", "xmacros">>
+RuleSeq == <<"plain", "mfm", "ofm", "range", "sections", "style", "caps", "macros", "xmacros", "xlib_a", "xlib_b">>
 Export == [rules |-> [n \in DOMAIN RuleSeq |->
                         [id |-> RuleSeq[n], cfg |-> CfgTable[RuleSeq[n]], pattern |-> PatternOf(RuleSeq[n]),
                          macros |-> MacrosOf(RuleSeq[n]), xmacros |-> XMacrosOf(RuleSeq[n]),
